@@ -23,7 +23,8 @@ LEVEL = ("structural clauses (the bytes httpx sends are not decided): wire names
          "names, Content-Type from the document's own key; the model of a multipart body is flagged for to_multipart, registered, and the "
          "flag never lowered; optional arguments guarded; header values converted to str for every non-str kind allowed in headers (what "
          "transform_header writes is a str on every path and is what header_params stores); the query filter drops UNSET and nothing but UNSET / None; sync/async variants equal as token "
-         "streams; security, the credential header overwritten before both httpx clients are built; parameter identity is (name, location).")
+         "streams; security, the credential header overwritten before both httpx clients are built; parameter identity is (name, location); "
+         "whoever hands on a parameter's schema with a name / location hands on that parameter's own.")
 
 
 def _flat(atom: str) -> str:
@@ -924,6 +925,141 @@ def _parameter_identity(rep: Report, ix: Any) -> None:
     rep.floor("parameter_identity_tests", n_id, 1)
 
 
+IDENTITY_FIELDS = ("name", "param_in")
+
+
+def _wire_name_handover(rep: Report, ix: Any) -> None:
+    """R03.11.  Between the document and the templates a parameter is rebuilt more than once (a Parameter for components/parameters, a
+    Property for the endpoint): each time its schema is handed on together with a name (a location), these are the name (the location)
+    of the parameter the schema is taken from.  Sites are found by what they pass (`<x>.param_schema`, in place, through a local or
+    through a parameter that every caller fills with it), not by whom they call; names and schemas that the calling function received
+    itself are followed to the callers of that function."""
+    import copy
+
+    tops = [f for f in ix.all_functions if f.parent is None]
+    lcs = {f.qual: Locals(f.node) for f in tops}
+    by_name: dict[str, list[Any]] = {}
+    for f in ix.all_functions:
+        by_name.setdefault(f.name, []).append(f)
+    called: dict[str, list[tuple[Any, ast.Call]]] = {}
+    for g in tops:
+        for c in calls_in(g.node):
+            called.setdefault(call_name(c).rsplit(".", 1)[-1], []).append((g, c))
+
+    def scope_of(f: Any, n: ast.AST) -> ast.AST:
+        """the innermost function definition (f itself or a function defined inside it) that contains the node"""
+        best = f.node
+        for d in ast.walk(f.node):
+            if isinstance(d, (ast.FunctionDef, ast.AsyncFunctionDef)) and d is not f.node and any(x is n for x in ast.walk(d)) \
+                    and any(x is d for x in ast.walk(best)):
+                best = d
+        return best
+
+    def resolve(f: Any, e: ast.AST, depth: int = 4) -> ast.AST:
+        """the expression a local stands for (bound once, by a plain assignment)"""
+        while isinstance(e, ast.Name) and depth:
+            v = _only_value(lcs[f.qual], e.id)
+            if v is None:
+                break
+            e, depth = v, depth - 1
+        return e.value if isinstance(e, ast.NamedExpr) else e
+
+    def arguments(c: ast.Call, h: Any = None) -> dict[str, ast.AST] | None:
+        """parameter name -> argument (positional arguments through the signature of the function called: h, or the only function of
+        that name the package defines); None when the call spreads a sequence / mapping"""
+        if any(isinstance(a, ast.Starred) for a in c.args) or any(k.arg is None for k in c.keywords):
+            return None
+        if h is None:
+            hs = by_name.get(call_name(c).rsplit(".", 1)[-1], [])
+            h = hs[0] if len(hs) == 1 else None
+        return {**(_Region.args_for(h, c) if h is not None and c.args else {}), **{k.arg: k.value for k in c.keywords}}
+
+    def callers(f: Any, d: ast.AST) -> list[tuple[Any, ast.Call, dict[str, ast.AST] | None]] | None:
+        """(function, call, arguments) of the calls of the function definition d of f: for f itself every call of that name in the package
+        (None when the package defines several functions of that name: whose calls they are is not known), for a function defined
+        inside f the calls made in f"""
+        if d is not f.node:
+            return [(f, c, arguments(c, _FakeDef(d))) for c in calls_in(f.node) if isinstance(c.func, ast.Name) and c.func.id == d.name]
+        if len(by_name.get(f.name, [])) != 1:
+            return None
+        return [(g, c, arguments(c, f)) for g, c in called.get(f.name, [])]
+
+    def received(f: Any, at: ast.AST, *es: ast.AST) -> tuple[ast.AST, set[str]]:
+        """(function definition around `at`, the parameters of it - never rebound - that the expressions read)"""
+        d = scope_of(f, at)
+        a = d.args
+        return d, ({n for e in es for n in names_in(e)} & {x.arg for x in [*a.posonlyargs, *a.args, *a.kwonlyargs]}) - set(lcs[f.qual].defs)
+
+    def at_caller(e: ast.AST, args: dict[str, ast.AST], ps: set[str]) -> ast.AST:
+        """the expression as the caller would have written it: parameters replaced by the arguments"""
+        class S(ast.NodeTransformer):
+            def visit_Name(self, n: ast.Name) -> ast.AST:
+                return copy.deepcopy(args[n.id]) if n.id in ps else n
+
+        return S().visit(copy.deepcopy(e))
+
+    def is_schema(f: Any, at: ast.AST, v: ast.AST, depth: int = 2) -> bool:
+        """v is the schema of a document parameter: `<x>.param_schema`, or a parameter of the function that every caller fills with one"""
+        rv = resolve(f, v)
+        if isinstance(rv, ast.Attribute):
+            return rv.attr == "param_schema"
+        if not (isinstance(rv, ast.Name) and depth):
+            return False
+        d, ps = received(f, at, rv)
+        sites = callers(f, d) if ps else None
+        return bool(sites) and all(args is not None and rv.id in args and is_schema(g, c, args[rv.id], depth - 1) for g, c, args in sites)
+
+    def carries(f: Any, at: ast.AST, v: ast.AST, sx: ast.AST, field: str, depth: int = 3) -> tuple[bool, str]:
+        """v is `<x>.<field>` of the parameter <x> whose schema sx is (`<x>.param_schema`): as written in f at `at`, through locals, or -
+        when they are made from parameters of the function - as every caller of the function writes them"""
+        rv, rs = resolve(f, v), resolve(f, sx)
+        if isinstance(rs, ast.Attribute) and rs.attr == "param_schema" and isinstance(rv, ast.Attribute) and rv.attr == field \
+                and norm(resolve(f, rv.value)) == norm(resolve(f, rs.value)):
+            return True, norm(rv)
+        d, ps = received(f, at, rv, rs)
+        if not (depth and ps):
+            return False, norm(rv)[:80]
+        sites = callers(f, d)
+        rep.require(sites is not None, f"the calls of {f.name}, which receives `{'`, `'.join(sorted(ps))}`")
+        for g, c, args in sites:
+            rep.require(args is not None, f"arguments of the call of {f.name} in {short(g)}")
+            if not ps <= set(args):
+                return False, f"{short(g)}: {norm(c)[:80]}"
+            ok, why = carries(g, c, at_caller(rv, args, ps), at_caller(rs, args, ps), field, depth - 1)
+            if not ok:
+                return False, f"{short(g)}: {why}"
+        return True, f"{len(sites)} call(s) of {getattr(d, 'name', f.name)}"
+
+    n_sites = 0
+    for f in tops:
+        for c in calls_in(f.node):
+            args = arguments(c)
+            fields = [k for k in IDENTITY_FIELDS if args and k in args]
+            if not fields:
+                continue
+            sxs = [v for k, v in args.items() if k not in IDENTITY_FIELDS and is_schema(f, c, v)]
+            if not sxs:
+                continue
+            n_sites += 1
+            callee = call_name(c).rsplit(".", 1)[-1]
+            for field in fields:
+                res = [carries(f, c, args[field], sx, field) for sx in sxs]
+                rep.check(all(ok for ok, _ in res), "R03.11", f"{callee}::{field}",
+                          f"`{callee}` receives the schema of a document parameter (`{norm(resolve(f, sxs[0]))}`) but its `{field}` is not that parameter's "
+                          f"`{field}` ({[why for ok, why in res if not ok][:1]}): the argument would be sent under another "
+                          f"{'name' if field == 'name' else 'location'} than the document declares", where(f, c), lhs=[why for _, why in res],
+                          rhs=f"<the parameter whose schema is passed>.{field}")
+    rep.floor("parameter_schema_handovers", n_sites, 1)
+
+
+class _FakeDef:
+    """a function defined inside another one, as far as _Region.args_for needs to know it"""
+
+    def __init__(self, node: Any):
+        self.node = node
+        self.kind = "function"
+
+
 def run(rep: Report, ctx: Any) -> str:
     ix = ctx.py
     jx = ctx.jinja
@@ -960,6 +1096,11 @@ def run(rep: Report, ctx: Any) -> str:
                       "generators it iterates, its closures) compares, tests for membership or looks up the name of the declared parameter "
                       "under consideration (an element of data.parameters, however it got there) or a key made from that name, the "
                       "parameter's location takes part as well - in the key, or in what selects the collection compared against")
+    rep.rule("R03.11", "the wire name and the location travel with the schema: every call in the package that hands on the schema of a document "
+                       "parameter (`<x>.param_schema`, in place, through a local, or through a parameter that every caller fills with it) "
+                       "together with a `name` / `param_in` passes `<x>.name` / `<x>.param_in` of that same parameter - written in place, held in "
+                       "a local, or made from parameters of the calling function, in which case every call of that function is checked instead "
+                       "(Parameter(...) rebuilt for components/parameters, property_from_data(...) for the endpoint's argument)")
 
     # ---- R03.1 -------------------------------------------------------------------------------------------------------
     sites = {}
@@ -1554,5 +1695,7 @@ def run(rep: Report, ctx: Any) -> str:
 
     # ---- R03.9 ------------------------------------------------------------------------------------------------------------------
     _parameter_identity(rep, ix)
+    # ---- R03.11 -----------------------------------------------------------------------------------------------------------------
+    _wire_name_handover(rep, ix)
     rep.not_decided += ["the bytes httpx actually sends"]
     return LEVEL
